@@ -28,7 +28,8 @@ def scratch(patch=None):
     return d, repo
 
 def demo_result(repo, demo, race=False):
-    pkgdir = "gennames" if "package main" in open(demo).read() else "jen"
+    import re
+    pkgdir = "gennames" if re.search(r"(?m)^package main\b", open(demo).read()) else "jen"
     dst = os.path.join(repo, pkgdir, "zz_seeded_demo_test.go")
     shutil.copy(demo, dst)
     rc, out = sh("go test -vet=off -count=1 %s ./%s/" % ("-race" if race else "", pkgdir), repo)
